@@ -74,15 +74,15 @@ class Gen:
             return str(self.pick([0, 1, 2, 7, 42, 1000, 2**31, 2**62, 9223372036854775807]))
         if k == 1:
             self.use("Float")
-            if "fmt-float" in risky:
-                return self.pick(["1.0", "2e3", "0.0", "1e10", "100.0", "5e0"])
+            if "fmt-float" in risky and self.chance(0.5):
+                return self.pick(["1.0", "2e3", "0.0", "1e10", "100.0", "5e0", "1e16", "1e300", "1e-7"])
             return self.pick(["1.5", "0.25", "3.14159", "2.5e-3", "1e-7", "0.1", "123.456", "1.5e3" if False else "7.75"])
         if k == 2:
             self.use("String")
             return self.string()
         if k == 3:
             self.use("Bytes")
-            if "fmt-bytes-escape" in risky:
+            if "fmt-bytes-escape" in risky and self.chance(0.4):
                 return self.pick(['b"a\\"b"', 'b"a\\\\b"'])
             return self.pick(['b"abc"', 'b""', 'b"\\x00\\xff"', 'b"a\\nb\\t"', "b'q'"])
         if k == 4:
@@ -567,6 +567,7 @@ class Gen:
         return out
 
     def decl(self, kind=None, risky=()):
+        risky = tuple(risky) + tuple(FIXED)      # repaired classes are ordinary constructs now
         k = kind or self.pick(["import", "const", "model", "class", "trait", "newtype", "enum", "function", "function", "function", "docstring"])
         pub = ""
         if k not in ("import", "docstring") and self.chance(0.3):
@@ -659,7 +660,7 @@ class Gen:
             self.use("newtype")
             nm = self.pick(["UserId", "Email"])
             head = "%snewtype %s = %s" % (pub, nm, self.ty(1, risky)) if self.chance(0.5) else "%stype %s = newtype %s" % (pub, nm, self.ty(1, risky))
-            if "fmt-newtype-methods" in risky:
+            if "fmt-newtype-methods" in risky and self.chance(0.5):
                 self.use("newtype.methods")
                 return [head + ":"] + self.method(4, (), False)
             return [head]
@@ -681,16 +682,14 @@ class Gen:
             self.use("Function.is_async")
             a = "async "
         tp = ""
-        if "fmt-type-params" in risky:
+        if "fmt-type-params" in risky and self.chance(0.4):
             self.use("Function.type_params")
             tp = "[%s]" % ", ".join(self.pick(["T", "E"]) for _ in range(self.r.randrange(1, 3)))
         head = "%s%sdef %s%s(%s) -> %s:" % (pub, a, self.pick(["main", "run", "helper", "compute"]), tp, ", ".join(self.params(risky)), self.ty(2, risky))
         return out + [head] + self.block(3, 4, risky)
 
 
-RISKY = ["fmt-float", "fmt-mut-param", "fmt-type-params", "fmt-decorator-type-arg", "fmt-tuple-type", "fmt-unit-type",
-         "fmt-closure", "fmt-if-expr", "fmt-qualified-pattern", "fmt-guard", "fmt-newtype-methods", "fmt-fstring-escape",
-         "fmt-bytes-escape", "fmt-docstring-escape", "fmt-compound-desugar"]
+RISKY = ["fmt-closure", "fmt-if-expr", "fmt-guard", "fmt-fstring-escape", "fmt-docstring-escape", "fmt-compound-desugar"]
 
 
 def program(rng, n_decls, p_risky=0.25):
@@ -719,9 +718,29 @@ def program(rng, n_decls, p_risky=0.25):
 
 # ------------------------------------------------------------------------------------------ findings
 # Proposed known_findings.json entries (the lead merges them); until then they are loaded from build/kf-C08.json.
+FIXED = {
+    "fmt-float": "58a1bad",
+    "fmt-mut-param": "76fa00b",
+    "fmt-type-params": "67d8b79",
+    "fmt-unit-type": "0a07b36",
+    "fmt-tuple-type": "603c16f",
+    "fmt-qualified-pattern": "33570fc",
+    "fmt-empty-constructor-pattern": "1ee2d30",
+    "fmt-decorator-type-arg": "ae4b590",
+    "fmt-newtype-methods": "4a76696",
+    "fmt-bytes-escape": "1bbdace",
+    "fmt-arm-trailing-space": "feb9cb5",
+    "fmt-double-newline": "38df3cf"
+}   # finding id -> `fix:` commit on branch fix-c08 of /repo
+
+
 def _kf(prop, fid, cls, witness, summary, why, fix):
-    return {"property": prop, "id": fid, "status": "known", "class": cls, "witness": witness, "summary": summary,
-            "why_not_fixed": why, "small_safe_fix": fix}
+    e = {"property": prop, "id": fid, "status": "known", "class": cls, "witness": witness, "summary": summary,
+         "why_not_fixed": why, "small_safe_fix": fix}
+    if fid in FIXED:
+        e.update({"status": "fixed", "commit": FIXED[fid], "fixed": "fixed: property=%s %s %s" % (prop, FIXED[fid], summary)})
+        del e["why_not_fixed"]
+    return e
 
 
 F = "def f() -> None:\n"
@@ -729,6 +748,9 @@ PROPOSED_C08 = [
     _kf("C08", "fmt-float", "Known_C08_float_integral (Fmt/Ast.v has_integral_float): a float literal (expression or pattern) whose Rust Display text contains no '.'",
         "const X: float = 1.0\n", "1.0 is printed `1`, 1e10 `10000000000`: the literal re-parses as an int (non-finite / >i64 values do not re-lex)",
         "fix candidate, not applied in this round", "yes: Literal::Float(f) => write(&format!(\"{:?}\", f)) (Debug keeps `.0` / exponent)"),
+    _kf("C08", "fmt-float-nonfinite", "a float literal whose value is not finite (e.g. 1e999, which lexes to infinity)",
+        "const X: float = 1e999\n", "an overflowing float literal is printed `inf`, which re-parses as an identifier",
+        "not repaired: needs a decision on how to spell such a literal; the literal itself is almost certainly a mistake in the source", "no"),
     _kf("C08", "fmt-mut-param", "Param.is_mut = true on a function/method parameter",
         "def f(mut a: int) -> int:\n    return a\n", "`mut` on parameters is dropped by format_param",
         "fix candidate", "yes: `if param.is_mut { self.writer.write(\"mut \") }` at the top of format_param"),
@@ -785,8 +807,8 @@ PROPOSED_C09 = [
     _kf("C09", "fmt-arm-trailing-space", "one line ending in \"=> \" per match arm whose body is a block",
         "def f(n: int) -> int:\n    match n:\n        case 0:\n            return 1\n        _ => 0\n", "block-bodied match arms are printed `pattern => ` + newline: trailing whitespace",
         "fix candidate", "yes: write \" =>\" and add the space only before an expression body"),
-    _kf("C09", "fmt-not-reparsable", "the file contains a construct of one of C08's listed classes whose printed form does not re-parse or re-parses differently (fmt-closure, fmt-if-expr, fmt-qualified-pattern, fmt-guard, fmt-newtype-methods, fmt-fstring-escape, fmt-bytes-escape, fmt-docstring-escape, fmt-compound-desugar, fmt-match-operand, fmt-decorator-type-arg)",
-        "type UserId = newtype int:\n    def get(self) -> int:\n        return 1\n", "fmt(fmt(x)) is an error / differs and `--check` after `fmt` fails exactly when fmt(x) is outside the parser's language (inherits C08's findings; an `if` expression also leaves a trailing blank)",
+    _kf("C09", "fmt-not-reparsable", "the file contains a construct of one of C08's listed open classes whose printed form does not re-parse or re-parses differently (fmt-closure, fmt-if-expr, fmt-guard, fmt-fstring-escape, fmt-docstring-escape, fmt-compound-desugar, fmt-match-operand, fmt-float-nonfinite)",
+        "def f(n: int) -> int:\n    match n:\n        case k if k > 0: return 1\n        _ => 0\n", "fmt(fmt(x)) is an error / differs and `--check` after `fmt` fails exactly when fmt(x) is outside the parser's language (inherits C08's findings; an `if` expression also leaves a trailing blank)",
         "see the C08 entries", "see the C08 entries"),
 ]
 
@@ -838,7 +860,7 @@ def gather(chk, binary):
     for r in RISKY:
         for j in range(6 if chk.tier == "quick" else 40):
             g = Gen(chk.rng)
-            kind = {"fmt-newtype-methods": "newtype", "fmt-docstring-escape": "docstring"}.get(r, "function")
+            kind = {"fmt-docstring-escape": "docstring"}.get(r, "function")
             items.append(("risky:%s:%d" % (r, j), "\n".join(g.decl(kind, (r,))) + "\n"))
             used |= g.used
     res = run_decls(binary, [s for _, s in items])
@@ -887,15 +909,10 @@ def judge_c09(d, known, c08_known):
     if h["lexed"]:
         if h["tabs"]:
             out.append("tab outside string contents: %r" % h["bad_line"])
-        want_tr = d["block_arms"] + d["if_exprs"]
+        want_tr = d["if_exprs"]
         if h["trailing"] != want_tr:
             out.append("%d line(s) with trailing whitespace outside strings (the listed classes account for %d): %r" % (h["trailing"], want_tr, h["bad_line"]))
         elif h["trailing"]:
-            if d["block_arms"]:
-                if "fmt-arm-trailing-space" in known:
-                    hits.add("fmt-arm-trailing-space")
-                else:
-                    out.append("trailing whitespace after `=>`: %r" % h["bad_line"])
             if d["if_exprs"]:
                 if inherited:
                     hits.add("fmt-not-reparsable")
@@ -903,13 +920,8 @@ def judge_c09(d, known, c08_known):
                     out.append("trailing whitespace after `if`: %r" % h["bad_line"])
     elif not inherited:
         out.append("formatted text does not lex")
-    want_nl = 2 + d["trail"]
-    if h["final_newlines"] == 1:
-        pass
-    elif h["final_newlines"] == want_nl and "fmt-double-newline" in known:
-        hits.add("fmt-double-newline")
-    else:
-        out.append("output ends in %d newlines (exactly one required; the listed class accounts for %d)" % (h["final_newlines"], want_nl))
+    if h["final_newlines"] != 1:
+        out.append("output ends in %d newlines (exactly one required)" % h["final_newlines"])
     return out, hits
 
 
@@ -1146,10 +1158,10 @@ def core_programs(chk, n):
         risky = ()
         r = chk.rng.random()
         if r < 0.12:
-            risky = ("fmt-float",)
+            risky = ()
         elif r < 0.2:
             risky = ("fmt-compound-desugar",)
-        line = g.stmt(0, 4, risky)
+        line = g.stmt(0, 4, tuple(risky) + tuple(FIXED))
         if len(line) != 1 or len(line[0]) > 160:
             continue
         out.append("def f() -> None:\n%s\n" % line[0])
